@@ -34,13 +34,21 @@ C09OK(e) ==
                  \* after the common tail what remains of the past must be below 1e-9 of the scale of the TAIL
                  tmag == IF "tailabs" \in DOMAIN e THEN QMax(QOne, QFrac(e.tailabs, e.unit)) ELSE mag
              IN
-             \/ (Tally("pairs") /\ OIsSome(a) /\ OIsSome(b) /\ QClose(OQ(a), OQ(b), QMul(QPow10Neg(9), tmag)))
-             \/ (OIsNone(a) /\ OIsNone(b))
-             \* a constant common tail is named separately: a normalised ratio of quantities that all vanish there (LaguerreRSI:
-             \* CU/(CU+CD) of stage differences decaying like gamma^t) has a limit that depends on the past even in exact
-             \* arithmetic - known finding KF2; every other view, and every other tail, must converge
-             \/ Report(IF "tail" \in DOMAIN e /\ e.tail = "constant" THEN "early-values-do-not-fade-on-a-constant-tail"
-                       ELSE "early-values-do-not-fade")
+             /\ \/ (Tally("pairs") /\ OIsSome(a) /\ OIsSome(b) /\ QClose(OQ(a), OQ(b), QMul(QPow10Neg(9), tmag)))
+                \/ (OIsNone(a) /\ OIsNone(b))
+                \* a constant common tail is named separately: a normalised ratio of quantities that all vanish there (LaguerreRSI:
+                \* CU/(CU+CD) of stage differences decaying like gamma^t) has a limit that depends on the past even in exact
+                \* arithmetic - known finding KF2; every other view, and every other tail, must converge
+                \/ Report(IF "tail" \in DOMAIN e /\ e.tail = "constant" THEN "early-values-do-not-fade-on-a-constant-tail"
+                          ELSE "early-values-do-not-fade")
+             \* where the experiment says so, the two runs must already agree at every recorded answer from input number
+             \* `agree_from` on (a long flat run has let everything decay; movement resumes there), not only at the very end
+             /\ \/ "agree_from" \notin DOMAIN e
+                \/ (Tally("pairs-along") /\
+                    \A i \in 1..Len(e.oa) : \/ i * e.k < e.agree_from \/ i > Len(e.ob)
+                                            \/ (OIsSome(e.oa[i]) /\ OIsSome(e.ob[i]) /\ QClose(OQ(e.oa[i]), OQ(e.ob[i]), QMul(QPow10Neg(7), tmag)))
+                                            \/ (OIsNone(e.oa[i]) /\ OIsNone(e.ob[i])))
+                \/ Report("early-values-return-after-a-flat-run")
 
 -----------------------------------------------------------------------------
 (* C18 *)
